@@ -30,6 +30,10 @@ CHECKS = {
             "emitted PDU; twin run without the premature requests must produce the same trace", "5 C19", "PutModel + twin-run differential"),
     "C20": ("routing table and routing/admission agreement judged on every routed PDU incl. synthetic kinds and header variants; "
             "misroute and bad-status faults; table cells covered are measured (sampling, not enumeration)", "5 C20", "in-situ oracle + misroute fault"),
+    "C11": ("differential: the same transaction (own slice of the decision tape) executed on fresh handlers, after a tape-chosen "
+            "history of completed / cancelled / faulted / abandoned / reset transactions on the same handler objects, and beside a "
+            "sibling pair of handler instances interleaved by the same scheduler; normalised observable traces and final file "
+            "must be equal", "5 C11", "twin-run differential on exactly repeatable executions"),
     "C12": ("clauses (a)-(e) judged on cancel requests (right / wrong id) injected between any two handler calls on either side, "
             "both modes, closure and disposition settings, optional link faults", "5 C12", "cancel-point search"),
     "C13": ("check-timer RetryModel judged at every call while the link makes the EOF overtake tape-chosen File Data PDUs and "
